@@ -183,6 +183,7 @@ func (rn *runner) round(round int) {
 			workers = append(workers, w)
 		}
 	}
+	rn.ks.round = round
 	add("g", nRW, rn.ks.rwProg)
 	add("w", nWO, rn.ks.woProg)
 	add("q", nRO, rn.ks.roProg)
@@ -648,7 +649,13 @@ func (rn *runner) indexDiverged(n uint64) (why string, inconclusive bool) {
 			time.Sleep(2 * time.Millisecond)
 		}
 		var keys []string
-		for _, k := range append(append(append([]string{}, rn.ks.keys...), rn.ks.tkeys...), rn.ks.miss...) {
+		all := append(append(append([]string{}, rn.ks.keys...), rn.ks.tkeys...), rn.ks.miss...)
+		for _, k := range rn.model.Now().Keys() {
+			if strings.Contains(string(k), "n") { // keys of the fresh families (a:nRR_i…)
+				all = append(all, string(k))
+			}
+		}
+		for _, k := range all {
 			if rn.ks.indexOf(k) == idx {
 				keys = append(keys, k)
 			}
